@@ -6,7 +6,9 @@ path is a fresh re-execution of the unit from its set-up.
 """
 import os
 import time
+import sys
 import z3
+sys.setrecursionlimit(max(sys.getrecursionlimit(), 20000))   # element closures of rewritten vectors nest deeply
 
 
 class PathEnd(Exception):
@@ -475,7 +477,7 @@ def run_path(run, decisions, fmodel, todo):
     return res
 
 
-def explore(run, fmodel="ORDER", prefix=(), max_paths=200000, split=0, pending_out=None):
+def explore(run, fmodel="ORDER", prefix=(), max_paths=200000, split=0, pending_out=None, budget=0):
     """Enumerate all paths of `run(ctx)` under the decision prefix. Yields PathResult.
 
     With split > 0 the exploration is breadth-first and stops as soon as at least `split` unexplored
@@ -484,6 +486,10 @@ def explore(run, fmodel="ORDER", prefix=(), max_paths=200000, split=0, pending_o
     n = 0
     while todo:
         if split and len(todo) >= split:
+            pending_out.extend(todo)
+            return
+        if budget and n >= budget and pending_out is not None:
+            # work sharing: after `budget` paths hand the unexplored prefixes back to the pool
             pending_out.extend(todo)
             return
         dec = todo.pop(0) if split else todo.pop()
